@@ -1,36 +1,53 @@
 ---------------------------- MODULE MCModelClone ----------------------------
 (* T1 for C22: the implementation-shaped layer of ModelClone (content +       *)
-(* conflict bookkeeping, clone() copying the fields in Copied) against the    *)
+(* conflict bookkeeping, clone() copying a given set of fields) against the   *)
 (* declarative layer, for <= MaxPre edits of the original, Clone, and any     *)
 (* interleaving of <= MaxPost edits applied to both / the original only / the *)
 (* clone only.  The invariants quantify over the *next* edit as well, so the  *)
 (* acceptance of MaxPost + 1 edits after the clone is covered.                *)
 (*                                                                            *)
-(* What the real clone() methods copy (read off the pinned tree; the driver   *)
-(* runs one configuration per uncopied field, expecting a counterexample, and *)
-(* the configuration Copied = AllFields, expecting none):                     *)
-(*   Problem.clone              everything but tinc (_fluents_inc_dec)         *)
-(*   ContingentProblem.clone    not traj, tasg, tinc, tm, mdef                *)
-(*   HierarchicalProblem.clone  not traj, tasg, tinc, tm, mdef                *)
-(*   MultiAgentProblem.clone    not idef (the MAEnvironment and the agents of *)
-(*                              the clone are built before _initial_defaults  *)
-(*                              is assigned)                                  *)
+(* One run explores several configurations chosen in Init: a problem class    *)
+(* and one field `miss` that clone() does not copy ("none" = clone() copies   *)
+(* everything = the repaired clone()).                                        *)
+(*   miss = "none"   the property invariants are real TLC invariants: the     *)
+(*                   repaired design must satisfy all of them                 *)
+(*   miss = a field  the verdict is total: every violated invariant is        *)
+(*                   printed as <<"T1CEX", cls, miss, invariant, witness>>    *)
+(*                   (the driver obtains a counterexample trace by re-running *)
+(*                   the configuration with Strict = TRUE)                    *)
+(* What the real clone() methods do not copy (read off the pinned tree):      *)
+(*   Problem.clone              tinc (_fluents_inc_dec)                        *)
+(*   ContingentProblem.clone    traj, tasg, tinc, tm, mdef                    *)
+(*   HierarchicalProblem.clone  traj, tasg, tinc, tm, mdef                    *)
+(*   MultiAgentProblem.clone    idef (the MAEnvironment and the agents of the *)
+(*                              clone are built before _initial_defaults is   *)
+(*                              assigned)                                     *)
 EXTENDS ModelClone
 CONSTANTS MaxPre, MaxPost,
-          Small     \* TRUE: one representative edit per rule (quick tier)
-VARIABLES o, c,        \* Impl layer: original, clone
+          Small,      \* TRUE: one representative edit per rule
+          Configs,    \* "code": per class "none" + the fields its clone() misses; "full": "none" only;
+                      \* "fields": every field of AllFields on its own (sensitivity of the invariants);
+                      \* any other string: that one field
+          ClsSet,     \* classes explored
+          Strict      \* TRUE: violations of miss # "none" configurations are real invariant violations
+VARIABLES cls, miss,   \* configuration
+          o, c,        \* Impl layer: original, clone
           so, sc,      \* Spec layer: original, clone
           cloned, sync, npre, npost
-vars == <<o, c, so, sc, cloned, sync, npre, npost>>
+vars == <<cls, miss, o, c, so, sc, cloned, sync, npre, npost>>
 
 UncopiedByCode == [plain |-> {"tinc"},
                    cont  |-> {"traj", "tasg", "tinc", "tm", "mdef"},
                    htn   |-> {"traj", "tasg", "tinc", "tm", "mdef"},
                    ma    |-> {"idef"}]
+MissOf(k) == CASE Configs = "code"   -> {"none"} \cup UncopiedByCode[k]
+               [] Configs = "full"   -> {"none"}
+               [] Configs = "fields" -> AllFields
+               [] OTHER              -> {Configs}
 
 \* one representative per acceptance rule / content field
-SmallEdits ==
-   {e \in Edits :
+SmallEdits(k) ==
+   {e \in Edits(k) :
       \/ e.op = "fluent" /\ e.k \in {"none", "t"}
       \/ e.op \in {"object", "action"}
       \/ e.op = "goal" /\ e.a \in {"g1", "gtrue"}
@@ -42,9 +59,17 @@ SmallEdits ==
       \/ e.op = "traj" /\ e.a \in {"tr1", "bad"}
       \/ e.op = "metric" /\ e.a \in {"minx", "cost"}
       \/ e.op = "init" /\ <<e.f, e.v>> \in {<<"x", 1>>, <<"b", 2>>, <<"n", 1>>}}
-TEdits == IF Small THEN SmallEdits ELSE Edits
+TEditsTab == TLCEval([k \in Classes |-> IF Small THEN SmallEdits(k) ELSE Edits(k)])
+TEdits == TEditsTab[cls]
+\* the edits whose acceptance the Impl layer decides from its bookkeeping
+ConfEditsTab == TLCEval([k \in Classes |-> {e \in TEditsTab[k] : e.op \in {"teff", "acteff"}}])
 
-Init == \E idef \in {"none", "f"}, tm \in (IF Cls = "ma" THEN {FALSE} ELSE BOOLEAN) :
+\* the configuration's uncopied field is chosen when the clone is made (miss = "" before), so that
+\* the histories of the original before the clone are explored once per class.
+\* Initial problems: (no initial defaults, continuous time), (Boolean default false, discrete time)
+Init == \E k \in ClsSet : \E b \in {<<"none", FALSE>>, <<"f", k # "ma">>} :
+         LET idef == b[1]  tm == b[2] IN
+           /\ cls = k /\ miss = ""
            /\ o = EmptyI(idef, tm) /\ so = Empty(idef, tm)
            /\ c = EmptyI("none", FALSE) /\ sc = Empty("none", FALSE)
            /\ cloned = FALSE /\ sync = TRUE /\ npre = 0 /\ npost = 0
@@ -54,11 +79,12 @@ SpecNext(p, e) == SpecStep(p, e, SpecAcc(p, e) = "")
 Pre(e) == /\ ~cloned /\ npre < MaxPre
           /\ o' = ImplStep(o, e) /\ so' = SpecNext(so, e)
           /\ npre' = npre + 1
-          /\ UNCHANGED <<c, sc, cloned, sync, npost>>
-DoClone == /\ ~cloned
-           /\ c' = ImplClone(o) /\ sc' = SpecClone(so)
-           /\ cloned' = TRUE
-           /\ UNCHANGED <<o, so, sync, npre, npost>>
+          /\ UNCHANGED <<cls, miss, c, sc, cloned, sync, npost>>
+DoClone(m) == /\ ~cloned
+              /\ miss' = m
+              /\ c' = ImplClone(o, AllFields \ {m}) /\ sc' = SpecClone(so)
+              /\ cloned' = TRUE
+              /\ UNCHANGED <<cls, o, so, sync, npre, npost>>
 Post(e, tgt) == /\ cloned /\ npost < MaxPost
                 /\ IF tgt \in {"both", "o"} THEN o' = ImplStep(o, e) /\ so' = SpecNext(so, e)
                                             ELSE UNCHANGED <<o, so>>
@@ -66,29 +92,46 @@ Post(e, tgt) == /\ cloned /\ npost < MaxPost
                                             ELSE UNCHANGED <<c, sc>>
                 /\ sync' = (sync /\ tgt = "both")
                 /\ npost' = npost + 1
-                /\ UNCHANGED <<cloned, npre>>
+                /\ UNCHANGED <<cls, miss, cloned, npre>>
 Next == \/ \E e \in TEdits : Pre(e)
-        \/ DoClone
+        \/ \E m \in MissOf(cls) : DoClone(m)
         \/ \E e \in TEdits, tgt \in {"both", "o", "c"} : Post(e, tgt)
 Spec == Init /\ [][Next]_vars
 
 \* ---- the property, on the Spec layer (sanity of the declarative layer itself)
-SpecEqualAfterEqualEdits == cloned /\ sync => so = sc /\ AbsEq(so, sc)
+SpecEqualAfterEqualEdits == cloned /\ sync => so = sc /\ AbsEq(cls, so, sc)
 \* ---- the property, on the Impl layer
 \* clone is equal to the original, and equal edits keep them equal
-EqualAfterEqualEdits == cloned /\ sync => ImplEq(o, c)
+\* (looking one equal edit ahead)
+EqualAfterEqualEdits == cloned /\ sync => /\ ImplEq(cls, o, c)
+                                          /\ \A e \in TEdits : ImplEq(cls, ImplStep(o, e), ImplStep(c, e))
 \* each edit succeeds on the clone iff it succeeds on the original
-SameAcceptance == cloned /\ sync => \A e \in Edits : (ImplAcc(o, e) = "") = (ImplAcc(c, e) = "")
+AccDiffer == {e \in TEdits : (ImplAcc(o, e) = "") # (ImplAcc(c, e) = "")}
+SameAcceptance == cloned /\ sync => AccDiffer = {}
 \* ---- refinement: each Impl problem behaves as the Spec says of its own content (this is what
 \* makes edits of one problem invisible to the other: acceptance depends on own content only)
-AcceptsLikeSpec == \A e \in Edits : /\ ImplAcc(o, e) = SpecAcc(so, e)
-                                    /\ cloned => ImplAcc(c, e) = SpecAcc(sc, e)
+UnlikeSpec == {e \in ConfEditsTab[cls] : \/ ImplAcc(o, e) # SpecAcc(so, e)
+                                         \/ cloned /\ ImplAcc(c, e) # SpecAcc(sc, e)}
+AcceptsLikeSpec == UnlikeSpec = {}
 Refines == Content(o) = so /\ (cloned => Content(c) = sc)
 BookP(ip) == LET b == BookOf(ip) IN
              ip.tasg = b.tasg /\ ip.tinc = b.tinc /\ ip.aasg = b.aasg /\ ip.ainc = b.ainc
 BookOK == BookP(o) /\ (cloned => BookP(c))
-\* edits to one leave the other unchanged (records are values: true by construction of both layers)
-Independence == [][cloned /\ cloned' =>
-                     \/ (c' = c /\ sc' = sc) \/ (o' = o /\ so' = so)
-                     \/ \E e \in Edits : o' = ImplStep(o, e) /\ c' = ImplStep(c, e)]_vars
+
+\* ---- verdicts
+Hard == miss \in {"", "none"} \/ Strict
+I_SpecEqualAfterEqualEdits == SpecEqualAfterEqualEdits
+I_EqualAfterEqualEdits == Hard => EqualAfterEqualEdits
+I_SameAcceptance == Hard => SameAcceptance
+I_AcceptsLikeSpec == Hard => AcceptsLikeSpec
+I_Refines == miss \in {"", "none"} => Refines
+I_BookOK == miss \in {"", "none"} => BookOK
+\* the observable invariants a configuration violates in this state, with a witness edit kind
+Wit(S) == IF S = {} THEN "" ELSE LET e == CHOOSE x \in S : TRUE IN e.op \o "." \o e.k
+Failing == (IF EqualAfterEqualEdits THEN {} ELSE {<<"EqualAfterEqualEdits", "">>})
+           \cup (IF SameAcceptance THEN {} ELSE {<<"SameAcceptance", Wit(AccDiffer)>>})
+           \cup (IF AcceptsLikeSpec THEN {} ELSE {<<"AcceptsLikeSpec", Wit(UnlikeSpec)>>})
+Total == ~Hard => \A f \in Failing : PrintT(<<"T1CEX", cls, miss, f[1], f[2], npre + npost>>)
+\* a configuration state that already shows a violation is not explored further
+Prune == Hard \/ Failing = {}
 =============================================================================
